@@ -103,6 +103,8 @@ type Case struct {
 	SpareCap  []int  `json:"spare_capacity_of_remove_lists,omitempty"`
 	Txns      []Txn  `json:"transactions,omitempty"`
 	Final     []Res  `json:"producers_at_end,omitempty"`
+	// held encodings (side held, held.go): per worker its transactions
+	Workers [][]HeldTxn `json:"held_workers,omitempty"`
 }
 
 func copyMap(m map[string]string) map[string]string {
@@ -213,7 +215,9 @@ func spoeVars(as []routing.VerifSPOEVar) []Var {
 			case int:
 				v.Type, v.Int = "int", int64(x)
 			case string:
-				v.Type, v.Str = "str", x
+				// a reading is a snapshot: the bytes are copied (a string value can
+				// share storage that is written later, cf. held.go)
+				v.Type, v.Str = "str", strings.Clone(x)
 			case []byte:
 				v.Type, v.Str = "bytes", string(x)
 			}
@@ -429,13 +433,21 @@ func scalars(r *c.Rng, a *Act) {
 	}
 }
 
-func randMap(r *c.Rng, odd bool) (map[string]string, bool) {
+// randMap: a header map over the abstract pool and the special names
+// (names.go; spelled per [sp]: spLower / spCanon / spMixed).
+func randMap(r *c.Rng, odd bool, sp int) (map[string]string, bool) {
 	if r.Chance(1, 10) {
 		return nil, true
 	}
 	m := map[string]string{}
 	for n := r.Intn(5); n > 0; n-- {
 		k, v := c.Pick(r, keyPool), c.Pick(r, valPool)
+		if r.Chance(2, 5) {
+			k, v = specialEntry(r, sp)
+			if r.Chance(1, 8) {
+				v = c.Pick(r, valPool)
+			}
+		}
 		if odd && r.Chance(1, 4) {
 			k = c.Pick(r, oddKeys)
 		}
@@ -460,6 +472,7 @@ func randCase(r *c.Rng, side string, maxLen int) Case {
 	pNoop := c.Pick(r, []int{1, 4, 8})     // of 16
 	pEarly := c.Pick(r, []int{0, 0, 2, 5}) // of 16, request side
 	odd := r.Chance(1, 6)
+	sp := c.Pick(r, []int{spLower, spLower, spCanon, spMixed})
 	for i := 0; i < n; i++ {
 		var a Act
 		switch x := r.Intn(16); {
@@ -473,7 +486,7 @@ func randCase(r *c.Rng, side string, maxLen int) Case {
 			a.Kind = c.Pick(r, kinds[1:])
 		}
 		if a.Kind != kNoop {
-			a.Headers, a.NilHeaders = randMap(r, odd)
+			a.Headers, a.NilHeaders = randMap(r, odd, sp)
 			scalars(r, &a)
 		}
 		k.Actions = append(k.Actions, a)
@@ -527,7 +540,8 @@ func enumerate(side string, length int, f func(Case)) {
 }
 
 // kindSequences calls f, [per] times, with every sequence of kinds of the given
-// length, header maps drawn at random from the 9 small maps.
+// length, header maps drawn at random from the 9 maps of one family per case:
+// over {a,b} or over two special names (names.go), evenly.
 func kindSequences(r *c.Rng, side string, length, per int, f func(Case)) {
 	kinds := reqKinds
 	if side == "resp" {
@@ -541,11 +555,12 @@ func kindSequences(r *c.Rng, side string, length, per int, f func(Case)) {
 		for rep := 0; rep < per; rep++ {
 			k := Case{Side: side}
 			x := code
+			fam := someFamily(r, code+rep)
 			for i := 0; i < length; i++ {
 				a := Act{Kind: kinds[x%len(kinds)]}
 				x /= len(kinds)
 				if a.Kind != kNoop {
-					a.Headers = smallMap(r.Intn(9))
+					a.Headers = fam.m(r.Intn(9))
 					scalars(r, &a)
 				}
 				k.Actions = append(k.Actions, a)
@@ -603,6 +618,7 @@ func main() {
 	o.DeclareSuite("legacy_resp", "From Verif Require Import C07.Model.", "case_legacy_resp", "run_legacy_resp")
 	o.DeclareSuite("sess_req", "From Verif Require Import C07.Model.", "case_sess_req", "run_sess_req")
 	o.DeclareSuite("sess_resp", "From Verif Require Import C07.Model.", "case_sess_resp", "run_sess_resp")
+	o.DeclareSuite("held", "From Verif Require Import C07.Model C07.Held.", "case_held", "run_held")
 	o.Rule("request and response action sequences. Exhaustive part: every sequence over the alphabet {no-op} + " +
 		"{other kinds} x {9 header maps over keys {a,b} x values {1,2}} up to length 2 (quick, search) / 3 (thorough), " +
 		"status/body/path/host/query/remove-list tagged with the position; so every cell of both pairwise tables is " +
@@ -619,19 +635,39 @@ func main() {
 		"routing fold; systematic part: every triple of modification kinds x reused producer in first / middle / " +
 		"last position of the first transaction and alone in the second x reuse x via, maps {a:1,b:1} {b:2,c:2} " +
 		"{c:3,d:3}; then random sessions (one transaction in five names a producer twice). First of all the " +
-		"witnesses of the open findings F-C07a / F-C07b and their boundary cases. distinct = distinct (inputs, observed result, observed variables); " +
+		"witnesses of the open findings F-C07a / F-C07b and their boundary cases. Header names: every pool (kind " +
+		"sequences, random sequences, sessions, account tokens of the legacy suites, held encodings) draws, besides the " +
+		"abstract names, content-type, content-length, content-encoding, transfer-encoding, host, authorization, " +
+		"set-cookie, x-lunar-sequence-id / -retry-after / -consumer-tag with realistic values, in lower case or " +
+		"Mixed-Case per case (random sequences also both spellings in one sequence); named pairs: every ordered pair " +
+		"of kinds that are not no-ops (16 + 4 cells) x each of these 10 names x lower / Mixed-Case x with / without " +
+		"bodies, the two (three) actions setting the name to different values, shapes [a1,a2] [a1,no-op,a2] " +
+		"[no-op,a1,a2,a3]. Held encodings (suite held): 2-5 transactions of either side combined and encoded in turn " +
+		"(loop over the public methods or the real routing fold), every encoding kept alive, read at once and again " +
+		"after all the others; systematic: every ordered pair of {early response, modified request, generated request, " +
+		"header edit, modified response, retry} x second body shorter / longer / as long x via, then a third " +
+		"transaction; bodies beyond 4 KiB; random histories; 2-4 goroutines each with its own history, unsynchronised " +
+		"(thorough tier additionally: 400 such cases under a -race build of this harness). " +
+		"distinct = distinct (inputs, observed result, observed variables); " +
 		"non-trivial = at least two actions of the sequence are not no-ops (session: some producer carrying " +
-		"headers fires in two transactions and some transaction combines two actions that are not no-ops)")
+		"headers fires in two transactions and some transaction combines two actions that are not no-ops; held: at " +
+		"least two transactions whose actions are not all no-ops)")
 	var k Case
 	if _, ok := o.ReplayCase(&k); ok {
 		if strings.HasPrefix(k.Side, "legacy_") {
 			runLegacy(o, k)
 		} else if isSession(k.Side) {
 			runSession(o, k)
+		} else if k.Side == "held" {
+			runHeld(o, k)
 		} else {
 			run(o, k)
 		}
 		o.Finish()
+		return
+	}
+	if o.Tier == "race" {
+		raceChild(o) // the -race build of this harness, started by raceVariant
 		return
 	}
 	r := o.Rng
@@ -639,6 +675,7 @@ func main() {
 	run(o, Case{Side: "req"})
 	run(o, Case{Side: "resp"})
 	witnesses(f)
+	namedPairs(f)
 	o.Exhaustive(true) // within the scope the rule states for the tier
 	switch o.Tier {
 	case "thorough":
@@ -691,6 +728,22 @@ func main() {
 	for i := 0; i < o.Scale(300, 3000, 4000); i++ {
 		runSession(o, randSession(r, "resp"))
 	}
+	// held encodings: several transactions combined and encoded, every encoding
+	// kept and read again afterwards; one worker, then a few goroutines
+	fh := func(k Case) { runHeld(o, k) }
+	for rep := o.Scale(1, 4, 3); rep > 0; rep-- {
+		systematicHeld(r, fh)
+	}
+	bigHeld(r, fh)
+	for i := 0; i < o.Scale(150, 3000, 4000); i++ {
+		runHeld(o, randHeld(r, 1))
+	}
+	for i := 0; i < o.Scale(12, 200, 300); i++ {
+		runHeld(o, randHeld(r, r.Range(2, 4)))
+	}
+	if o.Tier == "thorough" {
+		raceVariant(o)
+	}
 	o.Finish()
 }
 
@@ -704,6 +757,7 @@ func run(o *c.Out, k Case) {
 	}
 	o.Count(fmt.Sprintf("%s:len=%02d", k.Side, len(k.Actions)))
 	o.Count(k.Side + ":result=" + k.Result.Kind)
+	countNames(o, k.Side, k.Actions)
 	if len(k.StructUpdated) > 0 {
 		o.Count(k.Side + ":struct-updated-in-place")
 	}
